@@ -9,14 +9,13 @@ Open Scope Z_scope.
 
 Definition FW (s : state) : Prop := W s /\ Forall (Fr (s_heap s)) (units s).
 
-(* the contract of the freshness theorem: setters only inside a transaction; molecules are not made from (copy, substructure,
-   enter) nor merged with (union) the intermediate state of an open transaction; no renumbering inside a transaction (refuted:
-   fresh_remap_refuted); the patch step of Standardize is not covered *)
+(* the contract of the freshness theorem: setters only inside a transaction; molecules are not made from (copy, substructure)
+   the intermediate state of an open transaction; union and the patch step of Standardize are not covered (_partial) *)
 Definition in_txn (o : mobj) : Prop := o_backup o <> None.
 Definition fop_ok (s : state) (p : op) : Prop :=
   match p with
   | OSetCharge _ _ | OSetRadical _ _ => in_txn (s_cur s)
-  | OCopy | OSub _ | OEnter | ORemap _ => o_backup (s_cur s) = None
+  | OCopy | OSub _ => o_backup (s_cur s) = None
   | OUnion _ _ => False
   | OPatch _ _ _ _ => False
   | _ => True
@@ -64,9 +63,16 @@ Qed.
 Lemma inj_on_sub f (l l' : list Z) : inj_on f l -> incl l' l -> inj_on f l'.
 Proof. intros I S x y Hx Hy. apply I; auto. Qed.
 
-Lemma remap_frop mp h o : inv1 h o -> Fr h o -> o_backup o = None -> match remap mp h o with (h', o', _) => Fr h' o' end.
+Lemma remap_frop_txn mp h o : Fr h o -> o_backup o <> None -> match remap mp h o with (h', o', _) => Fr h' o' end.
 Proof.
-  intros [Wf Cw] F B. destruct (Fr_settled h o F B) as [C [Bo OK]]. unfold remap.
+  intros F B. unfold remap. destruct (negb (nodup_z (map snd mp)) || existsb _ (keys (o_atoms o))); [exact F|].
+  unfold flush, ok. cbn beta iota. apply Fr_txn; [simpo; exact B|]. intros x a Ha. left. unfold pend. simpo.
+  destruct (o_backup o) as [b|]; [|contradiction]. apply In_fold_sadd. left. apply zget_In_keys in Ha. unfold keys in *.
+  rewrite map_map in Ha. cbn [fst] in Ha. rewrite map_map. exact Ha.
+Qed.
+Lemma remap_frop_out mp h o : inv1 h o -> Fr h o -> o_backup o = None -> match remap mp h o with (h', o', _) => Fr h' o' end.
+Proof.
+  intros [Wf Cw] F B. destruct (Fr_settled h o F B) as [C [Bo OK]]. unfold remap. rewrite B.
   destruct (nodup_z (map snd mp)) eqn:E1; cbn [negb orb]; [|exact F].
   destruct (existsb _ (keys (o_atoms o))) eqn:E2; [exact F|].
   pose proof (mg_inj mp _ E1 E2) as Inj. unfold flush, ok. cbn beta iota. simpo. rewrite C.
@@ -115,7 +121,9 @@ Proof.
   - apply FW_frop; [exact Fs | apply add_bond_good | apply add_bond_frop].
   - apply FW_frop; [exact Fs | apply delete_atom_good | apply delete_atom_frop].
   - apply FW_frop; [exact Fs | apply delete_bond_good | apply delete_bond_frop].
-  - apply Fr_lift; [exact Fs | apply remap_good|]. apply remap_frop; [apply Uc | exact Fc | exact Fk].
+  - apply Fr_lift; [exact Fs | apply remap_good|]. destruct (o_backup (s_cur s)) as [b0|] eqn:Eb0.
+    + apply remap_frop_txn; [exact Fc | congruence].
+    + apply remap_frop_out; [apply Uc | exact Fc | exact Eb0].
   - (* copy *)
     destruct s as [h o others]. cbn [s_heap s_cur s_others] in *.
     destruct (copy_mol false false h o) as [[h1 b]|e] eqn:E; [|exact Ff]. cbn [fst s_heap].
@@ -156,18 +164,19 @@ Proof.
   - (* flush *) apply Fr_lift; [exact Fs | apply flush_good|]. cbv beta iota delta [flush ok]. now apply Fr_cache.
   - (* enter *)
     destruct s as [h o others]. unfold lift, enter. cbn [s_heap s_cur s_others] in *.
+    destruct (o_backup o) as [b0|] eqn:Eb0; [exact Ff|].
     destruct (copy_mol true true h o) as [[h1 b]|e] eqn:E; [|exact Ff]. cbn [ok fst s_heap].
     destruct (copy_mol_spec _ _ _ _ _ _ (proj1 (proj1 Uc)) E) as [cb [Eb [_ [X [_ V]]]]].
     pose proof (rest_fresh (mkS h o others) h1 Ws Ff (proj1 X) (fun r Hr _ => proj2 X r Hr)) as RF. cbn [s_cur s_others] in RF.
-    destruct (Fr_settled h o Fc Fk) as [Cn [Bo OK]].
+    destruct (Fr_settled h o Fc Eb0) as [Cn [Bo OK]].
     assert (forall n, lenvn h1 o n = lenvn h o n) as Ls.
     { apply lenvn_view. apply view_of_ext. intros r Hr. apply X. eapply U_lt; eauto. }
     rewrite units_cons. constructor; [|constructor].
     + apply Fr_txn; [discriminate|]. intros n a Ha. right. simpo. destruct (OK n a Ha) as [[l [X1 X2]] _]. exists (a_core a), l.
       split; [exact X2|]. split; [unfold lenvn, row in *; simpo; rewrite Ls; exact X1|]. split; [reflexivity|]. split; [reflexivity|]. simpo.
-      exists a. subst b. cbn [bk_atoms o_atoms]. auto.
+      subst b. cbn [bk_atoms o_atoms]. rewrite Ha. auto.
     + subst b. cbn [bk_mobj bk_atoms bk_adj bk_cache bk_changed bk_name bk_meta o_atoms o_adj o_cache o_changed o_name o_meta].
-      eapply (Fr_view h o); [exact V | reflexivity | simpo; symmetry; exact Fk | exact Fc].
+      eapply (Fr_view h o); [exact V | reflexivity | simpo; symmetry; exact Eb0 | exact Fc].
     + rewrite Forall_forall. intros u Hu. apply RF. apply in_or_app. now right.
   - (* exit_ok *)
     pose proof (exit_ok_frop _ _ (proj1 Uc) Fc) as Fx. pose proof (exit_body_good _ _ (proj1 Uc)) as G.
@@ -187,3 +196,49 @@ Proof.
   - apply Fr_lift; [exact Fs | apply (set_meta_good (Some (zset (match o_meta (s_cur s) with Some d => d | None => [] end) k v)))|].
     cbv beta iota delta [ok]. apply (Fr_same _ (s_cur s)); auto.
 Qed.
+
+Fixpoint fops_ok (s : state) (ops : list op) : Prop :=
+  match ops with [] => True | p :: t => op_ok s p /\ fop_ok s p /\ fops_ok (fst (step s p)) t end.
+Theorem run_FW ops : forall s, FW s -> fops_ok s ops -> FW (run ops s).
+Proof.
+  unfold run. induction ops as [|p t IH]; intros s Fs Ok; [exact Fs|]. cbn [fold_left]. destruct Ok as [O1 [O2 O3]].
+  apply IH; [now apply step_FW | exact O3].
+Qed.
+Lemma FW_empty : FW empty_state.
+Proof.
+  split; [apply W_empty|]. constructor; [|constructor]. apply Fr_of_OK; try reflexivity.
+  - intros r [].
+  - intros n a H. discriminate.
+Qed.
+
+(* the statement: outside a transaction, after every operation of a history within the contract, every stored hydrogen count is
+   calc of the atom's CURRENT environment and every label is labels of its CURRENT neighbourhood, for any calc / labels *)
+Section Stored.
+Variables (H L : Type) (calc : env -> H) (labels : lenv -> L).
+Definition stored_h (a : acell) : option H := option_map calc (a_hyd a).
+Definition stored_l (a : acell) : option L := option_map labels (a_lab a).
+Theorem stored_fresh : forall ops s, FW s -> fops_ok s ops ->
+  forall o, In o (live (run ops s)) -> o_backup o = None ->
+    o_changed o = None /\
+    (forall r, In r (refs_of_adj (o_adj o)) -> exists c, hget (s_heap (run ops s)) r = Some c /\ b_lab c = true) /\
+    forall n a, zget (o_atoms o) n = Some a ->
+      exists l, lenv_of_row (s_heap (run ops s)) (o_atoms o) (row o n) = Ok l /\
+                stored_h a = Some (calc (a_core a, l)) /\ stored_l a = Some (labels l).
+Proof.
+  intros ops s Fs Ok o Ho B. destruct (run_FW ops s Fs Ok) as [_ Ff]. rewrite Forall_forall in Ff.
+  destruct (Fr_settled _ o (Ff o (live_units _ _ Ho)) B) as [C [Bo OK]]. split; [exact C|]. split; [exact Bo|].
+  intros n a Ha. destruct (OK n a Ha) as [[l [X1 X2]] [l' [Y1 Y2]]]. exists l. split; [exact X1|]. unfold stored_h, stored_l.
+  rewrite X2. split; [reflexivity|]. unfold lenvn in *. rewrite X1 in Y1. inversion Y1; subst. now rewrite Y2.
+Qed.
+End Stored.
+
+(* non-vacuity: edits, a transaction with setters, a renumbering and structural edits, committed; then everything is current *)
+Definition fresh_history : list op :=
+  build_cco ++ [OEnter; OSetCharge 3 (-1); ORemap [(3, 9)]; OAddAtom carbon None; ODelBond 1 2; OSetRadical 2 true; OExitOk;
+                OAddBond 1 10 2; OCopy; OSwap; ODelAtom 2; OSub [1; 9]].
+Theorem fresh_example :
+  fops_ok empty_state fresh_history /\ trace fresh_history empty_state = repeat None 20 /\
+  (let s := run fresh_history empty_state in
+   forallb (fun o => forallb (fun n => hyd_fresh (s_heap s) o n && lab_fresh (s_heap s) o n) (keys (o_atoms o))) (live s) = true /\
+   List.length (live s) = 3%nat /\ keys (o_atoms (s_cur s)) = [1; 9; 10]).
+Proof. split; [vm_compute; repeat split; discriminate|]. split; vm_compute; repeat split; reflexivity. Qed.
